@@ -21,6 +21,10 @@ CHECKS = {
          "kernel ownership/symlink semantics modelled by lstat attributes", "6/C16", None),
  "C17": ("model_checking", "For each enumerated layout the stored and the extended metadata of every key equal the spans of the generated file: absolute path (also for a relative name), line on which the entry ends, preceding comment lines, trailing comment, blank-trimmed value lines; all field characters symbolic.",
          "layouts concrete per instance; realpath model for relative names (real realpath in the native replay)", "5.1, 6/C17", None),
+ "C18": ("other", "Sequential footprint reduction decided with CBMC: every object with static storage in the library (from the goto binary of the current tree) is either on the documented allow-list or shown by cover queries to be unreachable from public API calls on private objects with in-domain arguments; libc functions with hidden static state are absent; a multi-threaded driver under ThreadSanitizer is the replay. Interleavings are not explored.",
+         "reduction argument trusted (glibc allocator/stdio thread-safe; all other memory reachable only from the call's own arguments)", "6/C18", "static-footprint reduction: CBMC symbol table + goto-program scan + cover (reachability) queries; ThreadSanitizer replay of a multi-threaded driver"),
+ "C19": ("model_checking", "econftool's own printing function (show/cat) executed by CBMC on enumerated objects (only group-less keys / only sections / both / re-opened sections / multi-line value): the captured stdout equals the expected listing exactly; the syntax command's status is non-zero exactly when the library reports an error (file content symbolic good/malformed).",
+         "objects concrete (printing depends on string lengths); main()'s argument parsing, edit/revert and the shell-visible exit status are outside; tree semantics via C01/C12", "6/C19", None),
  "C20": ("model_checking", "CBMC's leak, double-free, use-after-free and invalid-free checks on every early-return path of the six entry points (failure of each kind injected at a chosen consulted file), on the reader's failure paths and on API operation steps; out-pointers NULL / untouched / valid.",
          "leak tracking is CBMC's (one nondeterministically chosen allocation per run = all allocations); allocation failure out of scope", "6/C20", None),
  "C03": ("model_checking", "For every pair of entry lists within the length bound (all section interleavings incl. re-opened sections, duplicates, empty sides, constructor-made empty objects; keys symbolic) the merge result satisfies each clause of the statement and every array write stays inside base+override entries.",
